@@ -347,7 +347,20 @@ fn quote_all(w: &mut dyn Write, s: &str) {
     quote_event(out, s, "key", "default", g(&|| Some(kb.as_default().to_toml_key())));
     quote_event(out, s, "key", "str_to_toml_key", g(&|| Some(s.to_string().to_toml_key())));
     quote_event(out, s, "key", "edit_key_display", g(&|| Some(toml_edit::Key::new(s).to_string())));
-    let sb = TomlStringBuilder::new(s);
+    // the builder computes its metrics eagerly: a panic there is data, not a harness failure
+    let sb = match catch_unwind(AssertUnwindSafe(|| TomlStringBuilder::new(s))) {
+        Ok(b) => b,
+        Err(_) => {
+            for style in ["literal", "ml_literal", "basic_pretty", "ml_basic_pretty", "basic", "ml_basic", "default"] {
+                quote_event(out, s, "value", style, Some("<<panic>>".into()));
+            }
+            quote_event(out, s, "value", "str_to_toml_value", g(&|| Some(s.to_string().to_toml_value())));
+            quote_event(out, s, "value", "edit_value_display", g(&|| Some(toml_edit::Value::from(s).to_string().trim().to_string())));
+            quote_event(out, s, "value", "toml_value_display", g(&|| Some(toml::Value::String(s.to_string()).to_string())));
+            writeln!(w, "{}", json!({"ev": "quote", "id": "quote", "s": cps(s), "q": qs})).unwrap();
+            return;
+        }
+    };
     quote_event(out, s, "value", "literal", g(&|| sb.as_literal().map(|k| k.to_toml_value())));
     quote_event(out, s, "value", "ml_literal", g(&|| sb.as_ml_literal().map(|k| k.to_toml_value())));
     quote_event(out, s, "value", "basic_pretty", g(&|| sb.as_basic_pretty().map(|k| k.to_toml_value())));
@@ -399,6 +412,16 @@ pub fn quote_events(args: &Args) {
             let c = b as char;
             for s in [format!("{c}"), format!("a{c}a"), format!("{c}\""), format!("{c}'"), format!("{c}\n")] {
                 quote_all(&mut out, &s);
+            }
+        }
+    }
+    // long runs of one quote character, around the capacity of a byte-sized counter
+    if first.is_none() {
+        for q in ['\'', '"'] {
+            for n in [3usize, 254, 255, 256, 257, 300, 600] {
+                let run: String = std::iter::repeat(q).take(n).collect();
+                quote_all(&mut out, &run);
+                quote_all(&mut out, &format!("a{run}b"));
             }
         }
     }
